@@ -104,6 +104,8 @@ def run(ctx):
     for b in bad[:5]:
         ctx.finding("crystal:%s:%s" % (b["desc"]["crystal"], b["desc"]["kind"]), "%s %s: %s" % (b["desc"]["crystal"], b["desc"]["kind"], b["complaint"]),
                     {"kind": "failing-input", "case": b, "how": "SBC().get_clusters(atoms, seed=seed) with default parameters"})
+    import finder_helpers
+    finder_helpers.check(ctx, broken)
     if broken and not ctx.findings:
         ctx.finding("unproved", "conditional theorem no longer checks, no failing crystal found", {"kind": "broken-obligation", "broken": broken}, found_input=False)
     ctx.coverage["broken"] = [{"what": k_, "info": i} for k_, i in broken]
